@@ -6,7 +6,7 @@
 //! that its history holds positions that already occurred twice: expanding it consults the
 //! repetition history with mixed answers.
 use arimaa_engine_step::*;
-use std::sync::Arc;
+use std::sync::{Arc, Mutex};
 use std::thread;
 
 fn act(s: &str) -> Action {
@@ -65,51 +65,77 @@ fn list_digest(s: &GameState) -> u64 {
 
 fn main() {
     let seed: u64 = std::env::args().nth(1).map(|s| s.parse().unwrap()).unwrap_or(1);
-    let root = Arc::new(root());
-    let root_digest = digest(&root);
-    let root_list = list_digest(&root);
+    // the shared root is never queried before the threads start: the expected values are
+    // computed on a separately rebuilt private copy
+    let shared = Arc::new(root());
+    let private = root();
+    let root_digest = digest(&private);
+    let root_list = list_digest(&private);
+    let board: Arc<Mutex<Vec<(Vec<Action>, Arc<GameState>)>>> = Arc::new(Mutex::new(vec![]));
     let mut hs = vec![];
     for t in 0..3u64 {
-        let root = root.clone();
+        let root = shared.clone();
+        let board = board.clone();
         hs.push(thread::spawn(move || {
             let mut x = seed.wrapping_mul(6364136223846793005).wrapping_add(t + 1) | 1;
-            let mut trace = vec![];
-            // expand the shared root directly (shared reference); the third-repetition pass after
-            // a1n is withheld, so this consults the history
-            let first = if t == 0 { act("a1n") } else { let va = root.valid_actions(); va[(xorshift(&mut x) as usize) % va.len()] };
-            let shared_list = list_digest(&root);
-            let mut s = root.take_action(&first);
-            trace.push((first, digest(&s), list_digest(&s)));
-            let keep = s.clone();
-            for _ in 0..3 {
+            let mut log: Vec<(Vec<Action>, u64, u64)> = vec![];
+            // expand the shared root (first request races with the other threads' first requests,
+            // the second one with their late ones); the pass after a1n is a third repetition
+            let l1 = list_digest(&root);
+            let va = root.valid_actions();
+            let first = if t == 0 { act("a1n") } else { va[(xorshift(&mut x) as usize) % va.len()] };
+            let l2 = list_digest(&root);
+            log.push((vec![], digest(&root), l1));
+            log.push((vec![], digest(&root), l2));
+            let child = Arc::new(root.take_action(&first));
+            log.push((vec![first], digest(&child), list_digest(&child)));
+            board.lock().unwrap().push((vec![first], child.clone()));
+            // expand a state published by another thread, if there is one yet
+            let other = { board.lock().unwrap().iter().find(|(p, _)| p[0] != first).map(|(p, s)| (p.clone(), s.clone())) };
+            if let Some((path, st)) = other {
+                log.push((path.clone(), digest(&st), list_digest(&st)));
+                let va = st.valid_actions();
+                if !va.is_empty() {
+                    let a = va[(xorshift(&mut x) as usize) % va.len()];
+                    let g = st.take_action(&a);
+                    let mut p2 = path.clone();
+                    p2.push(a);
+                    log.push((p2, digest(&g), if g.current_step() == 3 { list_digest(&g) } else { 0 }));
+                }
+            }
+            // play on privately for two steps
+            let mut s: GameState = (*child).clone();
+            let mut path = vec![first];
+            for _ in 0..2 {
                 let va = s.valid_actions();
                 if va.is_empty() {
                     break;
                 }
                 let a = if s.can_pass(true) && xorshift(&mut x) % 3 == 0 { Action::Pass } else { va[(xorshift(&mut x) as usize) % va.len()] };
                 s = s.take_action(&a);
-                trace.push((a, digest(&s), if s.current_step() == 3 { list_digest(&s) } else { 0 }));
+                path.push(a);
+                log.push((path.clone(), digest(&s), if s.is_play_phase() && s.current_step() == 3 { list_digest(&s) } else { 0 }));
             }
-            // hand the kept clone back to the main thread, which drops it (last owner elsewhere)
-            (trace, keep, shared_list)
+            // the published child is handed back to the main thread, which drops it (last owner elsewhere)
+            (log, child)
         }));
     }
     let results: Vec<_> = hs.into_iter().map(|h| h.join().unwrap()).collect();
-    assert_eq!(digest(&root), root_digest, "the shared root changed");
-    for (trace, keep, shared_list) in results {
-        assert_eq!(shared_list, root_list, "concurrent expansion of the shared root differs from sequential expansion");
-        let mut s = (*root).clone();
-        for (i, (a, d, l)) in trace.iter().enumerate() {
-            s = s.take_action(a);
-            assert_eq!(digest(&s), *d, "concurrent result differs from sequential re-execution");
-            if i == 0 || s.current_step() == 3 {
-                assert_eq!(list_digest(&s), *l, "concurrent action list differs from sequential re-execution");
+    assert_eq!(digest(&shared), root_digest, "the shared root changed");
+    assert_eq!(list_digest(&shared), root_list, "the shared root answers differently after concurrent use");
+    for (log, child) in results {
+        for (path, d, l) in log {
+            let mut s = private.clone();
+            for a in &path {
+                s = s.take_action(a);
             }
-            if i == 0 {
-                assert_eq!(digest(&keep), *d);
+            assert_eq!(digest(&s), d, "concurrent result differs from sequential re-execution");
+            if l != 0 || path.len() <= 1 {
+                assert_eq!(list_digest(&s), l, "concurrent action list differs from sequential re-execution");
             }
         }
-        drop(keep);
+        drop(child);
     }
+    drop(board);
     println!("ok seed {}", seed);
 }
